@@ -222,7 +222,7 @@ func (p *printer) cmd(c *ast.Cmd) {
 
 func (p *printer) simpleCmd(x *ast.SimpleCmd, redirs []*ast.Redir) (err error) {
 	var order [3]string
-	if p.cfg.Redir&Before == 0 {
+	if p.cfg.Redir&Before == 0 && !(len(x.Assigns) == 0 && len(redirs) != 0 && p.reserved(x.Args)) {
 		order[0] = "assign"
 		order[1] = "args"
 		order[2] = "redir"
@@ -267,6 +267,20 @@ func (p *printer) simpleCmd(x *ast.SimpleCmd, redirs []*ast.Redir) (err error) {
 		}
 	}
 	return
+}
+
+// reserved reports whether the first word of args would be recognized as
+// a reserved word if nothing was in front of it.
+func (p *printer) reserved(args []ast.Word) bool {
+	if len(args) != 0 && len(args[0]) == 1 {
+		if w, ok := args[0][0].(*ast.Lit); ok {
+			switch w.Value {
+			case "!", "{", "}", "case", "do", "done", "elif", "else", "esac", "fi", "for", "if", "in", "then", "until", "while":
+				return true
+			}
+		}
+	}
+	return false
 }
 
 func (p *printer) redir(r *ast.Redir) {
